@@ -43,7 +43,7 @@ fn bases(seed: u64, tier: Tier) -> Vec<Vec<Chunk>> {
     v.push(vec![c3((2, 2, 2), (0..60u32).map(|i| Sym::L(((i * 73 + 5) & 0xFF) as u8)).collect()), Chunk::C { class: 2, props: (4, 0, 0), prog: vec![Sym::M(60, 30), Sym::L(3), Sym::M(7, 2)] }]);
     // a slice of the C02 space: all well-formed 2-chunk sequences over the reduced kinds
     let kinds = chunk_kinds(seed, true);
-    let step = tier.pick(23usize, 5usize);
+    let step = tier.pick(23usize, 1usize);
     let mut k = 0usize;
     for a in 0..kinds.len() {
         for b in 0..kinds.len() {
